@@ -267,7 +267,7 @@ def subchecks():
             run_case=run_partB,
             strategy=lambda tier: gen.scenario(tier, dbs=["Forest", "Forest", "ForestNoRev"]),
             examples={"quick": 1500, "thorough": 25000},
-            case_timeout=120.0,
+            case_timeout=20.0,
         ),
         SubCheck(
             name="fuzz",
